@@ -106,6 +106,18 @@ SER_OUTSIDE = ["strings longer than 4 bytes, classes of more than 3 members, met
                "NamedSink in main.rs (one-line delegation to the wrapped writer) and the real stdout pipe"]
 
 
+SMIR = lambda which: SmtTask("c03_serial_mir", "c03_serial.py", quick=True, timeout=900, args=[which])
+SMIR_FUNCS = ["MIR/z3: <Program as Serializable>::{serialize,from_bytes} and everything below it (ConstantPool, ProgramObject, OpCode, Globals, Entry, the primitive "
+              "readers / writers, write_cpi_vector / read_cpi_vector, Code::{materialize,labels,label_addresses,extend}, Labels::from) from their own MIR"]
+SMIR_BOUNDS = ["MIR/z3 serializer task: 5 whole-program shapes with mixed constant pools (every constant kind together with a method that holds a label; two methods with "
+               "labels, jump, branch, a repeated string, a repeated integer and a three-member class; all 17 instruction kinds in one method; empty pool; empty method "
+               "and empty class) - every integer, boolean, index, arity, frame size, class member, global and entry symbolic; string contents and counts concrete. "
+               "LAY: bytes written = reference encoder byte for byte; RT: from_bytes(serialize(p)) = p, all input consumed, label table = label names -> addresses; "
+               "DEC: from_bytes(reference bytes) = p"]
+SMIR_STUBS = ["serializer task: the sink is a vector of byte terms, the source a cursor over one (write_all / read_exact), to_le_bytes / from_le_bytes are Extract / Concat; "
+              "String::from_utf8 and str::bytes on concrete contents; sort / dedup of up to 4 symbolic integers fork one path per outcome"]
+
+
 def ser_shape_timeout(shape):
     return 900
 
@@ -119,7 +131,10 @@ def c03():
     for sh in SER_SHAPES:
         p.add("h_ser::ser_%s_roundtrip" % sh, quick=sh in SER_QUICK, timeout=ser_shape_timeout(sh), mem_gb=ser_shape_mem(sh), 
               drives=["serialize", "from_bytes"], bound="shape %s: sizes concrete, every content symbolic" % sh)
-    p.functions, p.bounds, p.outside, p.not_covered = SER_FUNCS, SER_BOUNDS, SER_OUTSIDE, SER_NOT_COVERED
+    p.smt_tasks.append(SMIR("C03"))
+    p.functions, p.bounds, p.outside = SER_FUNCS + SMIR_FUNCS, SER_BOUNDS + SMIR_BOUNDS, SER_OUTSIDE
+    p.not_covered = ["whole programs with a mixed constant pool under Kani (8-24 GB); decided by the MIR task for the 5 listed shapes"]
+    p.stubs = p.stubs + SMIR_STUBS
     return p
 
 
@@ -146,7 +161,10 @@ def c04():
     p.add("h_ser::ser_boolean_reject", quick=True, timeout=600,
           allow=["Cannot deserialize value: unrecognized value tag", "Problem reading boolfrom data stream"],
           bound="boolean payload bytes 2-255 (six further symbolic bytes): rejected")
-    p.functions, p.bounds, p.outside, p.not_covered = SER_FUNCS, SER_BOUNDS, SER_OUTSIDE, SER_NOT_COVERED
+    p.smt_tasks.append(SMIR("C04"))
+    p.functions, p.bounds, p.outside = SER_FUNCS + SMIR_FUNCS, SER_BOUNDS + SMIR_BOUNDS, SER_OUTSIDE
+    p.not_covered = ["whole programs with a mixed constant pool under Kani (8-24 GB); decided by the MIR task for the 5 listed shapes"]
+    p.stubs = p.stubs + SMIR_STUBS
     return p
 
 
@@ -186,8 +204,9 @@ VM_ALL = ["literal", "get_local", "set_local", "get_global", "set_global", "drop
           "get_field", "loop_stops_at_failure"]
 
 
-VMK = lambda: SmtTask("vm_kernels_mir", "vm_kernels.py", quick=True, timeout=1200)
-VMH = lambda: SmtTask("vm_heap_kernels_mir", "vm_heap_kernels.py", quick=True, timeout=1800)
+# quick tier: the kernels that bear on the property (args); thorough tier: all kernels of the task
+VMK = lambda *quick_kernels: SmtTask("vm_kernels_mir", "vm_kernels.py", quick=True, timeout=1200, args=list(quick_kernels), thorough_args=[])
+VMH = lambda *quick_kernels: SmtTask("vm_heap_kernels_mir", "vm_heap_kernels.py", quick=True, timeout=1800, args=list(quick_kernels), thorough_args=[])
 VMK_FUNCS = ["interpreter::{eval_array,eval_object,eval_get_field,eval_set_field} with Heap::allocate, HeapObject::{size,new_object,from_pointers}, "
              "ObjectInstance::{get_field,set_field}, Heap::dereference(_mut): MIR/z3",
              "interpreter::{eval_call_method,dispatch_method,dispatch_object_method,eval_call_object_method} on object receivers: MIR/z3",
@@ -237,6 +256,17 @@ PRINT_NOT_COVERED = ["prints with arguments (substitution order, too many argume
                      "900 s / 7-14 GB in probing (DESIGN 2); field ordering and nested rendering are not decided by the solver"]
 
 
+PMIR = lambda: SmtTask("c15_print_mir", "c15_print.py", quick=True, timeout=1500, args=["quick"], thorough_args=[])
+PMIR_FUNCS = ["MIR/z3: interpreter::eval_print, heap::{Pointer,HeapObject,ArrayInstance,ObjectInstance}::evaluate_as_string, Heap::dereference, "
+              "OperandStack::{pop_reverse_sequence,push}, InstructionPointer::bump"]
+PMIR_BOUNDS = ["MIR/z3 print task: 9 (quick) / 16 (thorough) concrete format strings (0-3 placeholders, every escape, unknown escapes, two- and three-byte characters, "
+               "too few / too many arguments) x 0-3 arguments; one argument: any Pointer, references to any of 5 heap cells (array of two leaves, object with fields "
+               "declared b then a and any primitive parent, object whose parent is that object, empty array, array holding an array), leaf kinds and values symbolic; "
+               "several arguments: primitives, the array of two integers, the empty array; the output is compared token by token with the property's definition"]
+PMIR_STUBS = ["print task: the sink is a token list (write_char / write_str append literal text or one token per rendered integer / boolean with its z3 term); core's "
+              "decimal rendering of i32 / bool is trusted; format! is evaluated to tokens; sort_by_key is a stable sort on the concrete field names"]
+
+
 def c15():
     p = Prop("C15")
     quick = {(0, 0), (1, 0), (2, 0), (3, 0)}
@@ -247,7 +277,12 @@ def c15():
     p.add("h_print::print_bad_constant", quick=True, timeout=900, bound="non-string format constant, missing constant")
     p.add("h_print::print_short_stack", quick=False, timeout=900, bound="operand stack shorter than the argument count")
     p.smt_tasks.append(SmtTask("lexer_regex_c15", "c07_lexer.py", quick=True, timeout=300, args=["C15"]))
-    p.functions, p.bounds, p.outside, p.not_covered = PRINT_FUNCS + ["fml.lalrpop STRING_LITERAL regex (z3)"], PRINT_BOUNDS, PRINT_OUTSIDE, PRINT_NOT_COVERED
+    p.smt_tasks.append(PMIR())
+    p.functions, p.bounds = PRINT_FUNCS + ["fml.lalrpop STRING_LITERAL regex (z3)"] + PMIR_FUNCS, PRINT_BOUNDS + PMIR_BOUNDS
+    p.outside = ["format strings longer than 5 bytes under Kani / other than the listed ones on the MIR", "a lone trailing backslash (DESIGN 4.1)",
+                 "heaps other than the 5-cell shape; rendering of values nested deeper than array-in-array / object-in-object; cyclic values (known finding, DESIGN 6)"]
+    p.not_covered = ["rendering under Kani (value-dependent output length); it is decided by the MIR task instead"]
+    p.stubs = p.stubs + PMIR_STUBS
     return p
 
 
@@ -270,6 +305,18 @@ COMPILE_NOT_COVERED = ["scope sequences with two global definitions or three let
                        "label uniqueness, jump targets, frame sizes of nested functions and the compound-array rewrite are not decided"]
 
 
+CMIR = lambda which: SmtTask("c02_compile_mir", "c02_compile.py", quick=True, timeout=1800, args=[which])
+CMIR_FUNCS = ["MIR/z3: <AST as Compiled>::compile_into (all 23 arms, recursively), compile_function_definition, LabelGenerator / LabelGroup, "
+              "Environment::*, ConstantPool::{register,find,push}, Globals::register, Code::{emit,emit_unless,extend}, AST constructors used by the compound-array rewrite"]
+CMIR_BOUNDS = ["MIR/z3 compiler task: 38 expression templates covering every arm with several children (calls, print, object, array with simple / compound / "
+               "nested initializers, conditional, loop, block, field and array access / assignment, let / assign, shadowing), nesting depth <= 3, each in 4 "
+               "contexts (value kept / discarded at top level, in a block, in a function); integer and boolean literals symbolic, names and shapes concrete; "
+               "the enumerated paths are proved to cover all literal values (z3), the executor's output is compared with the natively compiled program on every template"]
+CMIR_STUBS = ["compiler task: the AST's shape is concrete in the executor's value tree (only the matching arm of compile_into runs); format! is evaluated to a "
+              "string, HashMap<(Scope, String), _> / HashSet<String> are association lists with concrete keys, Box is a cell; the references (well-formedness, "
+              "stack discipline, README evaluator, stack machine) are smt/fmlref.py, written from the README and the documented instruction set"]
+
+
 def compile_prop(pid, quick_literals, quick_seqs):
     p = Prop(pid)
     for lit in ("integer_local", "integer_top", "integer_top_block", "boolean_local", "boolean_top", "null_local", "null_top_block"):
@@ -286,11 +333,31 @@ def compile_prop(pid, quick_literals, quick_seqs):
 
 
 def c02():
-    return compile_prop("C02", {"integer_local", "null_top_block"}, {("r", "local"), ("r", "block"), ("l", "top"), ("a", "local"), ("lr", "local")})
+    p = compile_prop("C02", {"integer_local", "null_top_block"}, {("r", "local"), ("r", "block"), ("l", "top"), ("a", "local"), ("lr", "local")})
+    p.smt_tasks.append(CMIR("C02"))
+    p.functions = p.functions + CMIR_FUNCS
+    p.bounds = p.bounds + CMIR_BOUNDS + ["W: constant references exist and have the required kind, labels defined once and targeted inside the same method, locals fit the "
+                                         "frame, every instruction in exactly one method, entry / globals well-typed; S: one operand-stack depth per instruction over all "
+                                         "control-flow edges, never negative, exactly one at every return"]
+    p.stubs = p.stubs + CMIR_STUBS
+    p.not_covered = ["scope sequences with two global definitions or three lets under Kani (out of memory at 12 GB); covered at template level by the MIR task",
+                     "programs outside the template family (deeper nesting, other combinations): the claim is per template, composition is by the syntax-directed structure"]
+    return p
 
 
 def c12():
-    return compile_prop("C12", set(), {("lr", "local"), ("lr", "top"), ("elr", "block"), ("elxr", "local"), ("elxer", "local"), ("elxea", "top")})
+    p = compile_prop("C12", set(), {("lr", "local"), ("lr", "top"), ("elr", "block"), ("elxr", "local"), ("elxer", "local"), ("elxea", "top")})
+    p.smt_tasks.append(CMIR("C12"))
+    p.functions = p.functions + CMIR_FUNCS
+    p.bounds = p.bounds + CMIR_BOUNDS + [
+        "scoping observed at run time (MIR/z3 compiler task, templates scope-*): shadowing in a nested block, sibling blocks, assignment to an outer variable before and "
+        "after an inner let, function bodies isolated from the caller's locals, a parameter shadowing a global, a global assigned from a function, lets in a loop body "
+        "and in both branches of a conditional, `this` and a parameter in a method; every variable read is printed and the printed values of the emitted code on a "
+        "reference stack machine must equal those of the README's block scoping on a reference evaluator, literal values symbolic"]
+    p.stubs = p.stubs + CMIR_STUBS
+    p.not_covered = ["scope sequences with two global definitions or three lets under Kani (out of memory at 12 GB); covered at template level by the MIR task",
+                     "programs outside the sequences and templates"]
+    return p
 
 
 def c07():
@@ -331,12 +398,13 @@ def c10():
     p.smt_tasks.append(SmtTask("c09_dispatch_mir", "c09_dispatch.py", quick=True, timeout=900))
     p.smt_tasks.append(VMK())
     p.smt_tasks.append(VMH())
-    p.stubs = p.stubs + VMK_STUBS
-    p.functions = VM_FUNCS + VMK_FUNCS + PRINT_FUNCS
-    p.bounds = VM_BOUNDS + PRINT_BOUNDS
+    p.smt_tasks.append(PMIR())
+    p.stubs = p.stubs + VMK_STUBS + PMIR_STUBS
+    p.functions = VM_FUNCS + VMK_FUNCS + PRINT_FUNCS + PMIR_FUNCS
+    p.bounds = VM_BOUNDS + PRINT_BOUNDS + PMIR_BOUNDS + ["print task: a print that fails (count mismatch, unknown escape) has written nothing, whatever its arguments are"]
     p.outside = VM_OUTSIDE + ["process exit status and stderr/stdout separation (main.rs), lexer/parser rejections",
                               "FML call depth 10^5 and source nesting depth 200 (CBMC cannot unwind that far)"]
-    p.not_covered = VM_NOT_COVERED + PRINT_NOT_COVERED + ["termination of recursive rendering on cyclic heaps (known finding, see known_findings.txt)"]
+    p.not_covered = VM_NOT_COVERED + ["termination of recursive rendering on cyclic heaps (known finding, see known_findings.txt)"]
     return p
 
 
@@ -346,15 +414,18 @@ def c13():
         p.add("h_vm::vm_" + h, quick=q, timeout=900, bound="operands popped exactly once and in the pushed order")
     for sq, fk in (("la", "local"), ("l", "top")):
         p.add("h_compile::scope_%s_%s" % (sq, fk), quick=True, timeout=1500, bound="value compiled before the store")
-    p.smt_tasks.append(VMK())
-    p.smt_tasks.append(VMH())
-    p.stubs = p.stubs + VMK_STUBS
-    p.functions = VM_FUNCS + VMK_FUNCS + COMPILE_FUNCS
-    p.bounds = VM_BOUNDS + VMK_BOUNDS + COMPILE_BOUNDS
-    p.outside = VM_OUTSIDE + COMPILE_OUTSIDE
-    p.not_covered = VM_NOT_COVERED + COMPILE_NOT_COVERED + PRINT_NOT_COVERED + [
-        "compiler-side order of receiver / arguments / object members / array size and initializer / loop condition (arms with several children)",
-        "array(n, E.f) with an effectful E evaluates E once where the README says once per element (observed by reading, DESIGN 6)"]
+    p.smt_tasks.append(VMK("call", "object"))
+    p.smt_tasks.append(VMH("object"))
+    p.smt_tasks.append(CMIR("C13"))
+    p.smt_tasks.append(PMIR())
+    p.stubs = p.stubs + VMK_STUBS + CMIR_STUBS + PMIR_STUBS
+    p.functions = VM_FUNCS + VMK_FUNCS + COMPILE_FUNCS + CMIR_FUNCS + PMIR_FUNCS
+    p.bounds = VM_BOUNDS + VMK_BOUNDS + COMPILE_BOUNDS + CMIR_BOUNDS + PMIR_BOUNDS + [
+        "O: every operand position of a template holds a self-identifying call m<k>(); the trace of those calls and of prints that the README's semantics "
+        "prescribe (left to right, initializer re-executed per element, only the taken branch, loop condition once more at exit) equals the trace of the "
+        "emitted code on a reference stack machine, for the run-time choices listed per template (sizes 0-3, both branch outcomes, 0-2 loop iterations)"]
+    p.outside = VM_OUTSIDE + COMPILE_OUTSIDE + ["run-time choices other than the listed ones; the trace comparison runs the references on concrete choices (the compile step is symbolic)"]
+    p.not_covered = VM_NOT_COVERED + ["expression shapes outside the 38 templates"]
     return p
 
 
@@ -363,8 +434,8 @@ def c14():
     for h, q in (("get_field", True),):
         p.add("h_vm::vm_" + h, quick=q, timeout=900, bound="fields are read and updated in place through a heap reference")
     p.smt_tasks.append(SmtTask("c09_dispatch_mir", "c09_dispatch.py", quick=True, timeout=900))
-    p.smt_tasks.append(VMK())
-    p.smt_tasks.append(VMH())
+    p.smt_tasks.append(VMK("array", "object"))
+    p.smt_tasks.append(VMH("object", "fields"))
     p.stubs = p.stubs + VMK_STUBS
     p.functions = VM_FUNCS + VMK_FUNCS
     p.bounds = VM_BOUNDS + VMK_BOUNDS
@@ -381,7 +452,7 @@ def c16():
     for h in ("array0", "array2", "object", "twice_empty", "twice_mixed"):
         p.add("h_heap::heap_allocate_" + h, quick=True, timeout=900, drives=["Heap::allocate", "HeapObject::size"],
               bound="allocate returns the old length, appends one cell, adds exactly size() > 0, size depends on shape only")
-    p.smt_tasks.append(VMH())
+    p.smt_tasks.append(VMH("array", "object", "size"))
     p.stubs = p.stubs + VMK_STUBS
     p.functions = VM_FUNCS + VMK_FUNCS + ["heap::Heap::{allocate,set_size,verif_size (hook)}", "heap::HeapObject::size"]
     p.bounds = VM_BOUNDS + VMK_BOUNDS
